@@ -100,6 +100,25 @@ Theorem C17_set_item_shared : forall s xs i w ph,
 Proof. exact set_item_shared_lemma. Qed.
 Print Assumptions C17_set_item_shared.
 
+(* wholesale assignment rxnset.X = ys reaches every item obtained earlier; an item write reaches the set;
+   writes through a slice sub-set reach the parent (all handles read one array) *)
+Theorem C17_set_all_visible_in_items : forall xs ys xs',
+  sstep xs (SSetAll ys) = Ok xs' -> length ys = length xs ->
+  length xs' = length xs /\ forall i, (i < length xs)%nat -> hread xs' (HItem i) = [nthq ys i].
+Proof. exact set_all_visible_lemma. Qed.
+Print Assumptions C17_set_all_visible_in_items.
+Theorem C17_item_write_visible_in_set : forall xs i x xs',
+  sstep xs (SItemSet i x) = Ok xs' ->
+  hread xs' HSet = upd xs i x /\ nthq xs' i = x /\ (forall j, j <> i -> nthq xs' j = nthq xs j)
+  /\ length xs' = length xs.
+Proof. exact item_set_visible_lemma. Qed.
+Print Assumptions C17_item_write_visible_in_set.
+Theorem C17_subset_write_visible_in_set : forall xs lo len i x xs',
+  sstep xs (SSubElem lo len i x) = Ok xs' -> (lo + len <= length xs)%nat ->
+  nthq xs' (lo + i) = x /\ (forall j, j <> (lo + i)%nat -> nthq xs' j = nthq xs j).
+Proof. exact sub_elem_visible_lemma. Qed.
+Print Assumptions C17_subset_write_visible_in_set.
+
 (* non-vacuity: the hypotheses of the algebraic theorems are met by a concrete pair *)
 Definition exA := mkrxn [-1; 1#2; 0; 0] 0 (1#2) false [].
 Definition exB := mkrxn [-1; 0; 2; 0] 0 (1#4) false [].
